@@ -42,7 +42,7 @@ var (
 
 // Case is one directory content.
 type Case struct {
-	Kind   string // trunc | zerofill | byte | boxsize | word | pair | foreign | dir
+	Kind   string // trunc | zerofill | byte | boxsize | word | pair | foreign | dir | join
 	Target int    // index of the corrupted file (sorted by name)
 	Off    int
 	Val    uint32
@@ -55,6 +55,8 @@ type Case struct {
 	Present int
 	Degen   int
 	Mode    Mode
+	// join: a sequence of files whose headers differ (join.go)
+	Join JoinCase
 }
 
 func (c Case) String() string {
@@ -73,6 +75,8 @@ func (c Case) String() string {
 		return fmt.Sprintf("file %d header %s: [%d]=0x%x(w%d) and [%d]=0x%x(w%d)", c.Target, c.Name, c.Off, c.Val, c.Width, c.Off2, c.Val2, c.Width2)
 	case "dir":
 		return dirString(c, corpusFiles)
+	case "join":
+		return c.Join.String()
 	default:
 		return "foreign: " + c.Name
 	}
@@ -180,7 +184,13 @@ func buildCases(c *Corpus, thorough bool) error {
 		var hdrDevs []dev
 		for _, bx := range boxes {
 			sz := uint32(bx.Size)
-			for _, v := range []uint32{0, 1, 7, 8, 9, sz - 1, sz + 1, 1 << 31, 0xFFFFFFFF} {
+			sizeVals := []uint32{0, 1, 7, 8, 9, sz - 1, sz + 1, 1 << 31, 0xFFFFFFFF}
+			if t == len(c.Names)-1 {
+				// the file whose duration is read from its parts: every size below a box header,
+				// and one that is larger than the file
+				sizeVals = append(sizeVals, 2, 3, 4, 5, 6, uint32(len(b))+1)
+			}
+			for _, v := range sizeVals {
 				if v == sz {
 					continue
 				}
@@ -221,7 +231,10 @@ func buildCases(c *Corpus, thorough bool) error {
 		"symlink-to-directory", "sparse-3GiB-zeros", "sparse-3GiB-after-header-with-huge-moov", "unreadable", "nested-directory-with-segment", "only-foreign-files"} {
 		c.Cases = append(c.Cases, Case{Kind: "foreign", Name: n})
 	}
-	return buildDirCases(c, thorough)
+	if err := buildDirCases(c, thorough); err != nil {
+		return err
+	}
+	return buildJoinCases(c, thorough)
 }
 
 func put(b []byte, off int, val uint32, width int) {
@@ -277,6 +290,11 @@ func install(c *Corpus, cs Case, recDir string) error {
 				}
 			}
 			files[n] = b
+		}
+	case "join":
+		var err error
+		if files, err = joinFiles(cs.Join); err != nil {
+			return err
 		}
 	case "foreign":
 		if cs.Name == "only-foreign-files" {
@@ -498,7 +516,7 @@ func main() {
 	// first, so that they are evaluated even when the deadline cuts the enumeration on a loaded
 	// machine; the single deviations follow in a spreading order
 	prio := 0
-	for prio < total && (corpus.Cases[total-1-prio].Kind == "dir" || corpus.Cases[total-1-prio].Kind == "foreign") {
+	for prio < total && (corpus.Cases[total-1-prio].Kind == "dir" || corpus.Cases[total-1-prio].Kind == "foreign" || corpus.Cases[total-1-prio].Kind == "join") {
 		prio++
 	}
 	rest := total - prio
@@ -719,6 +737,10 @@ func workerMain() {
 		}
 		if cs.Kind == "dir" {
 			res.Timeless = dirProbes(w, &c, cs, pb, api, note)
+			return res
+		}
+		if cs.Kind == "join" {
+			joinProbes(w, cs, pb, note)
 			return res
 		}
 		w.Probe("list " + cs.String())
